@@ -328,10 +328,100 @@ def compare_case(prim, args, defined, st, problems, shapes=("1d", "0d")):
                 break
 
 
+# ---------------------------------------------------------------------------------------
+# harvested arguments: the argument tuples the real element layer hands to the primitives while it steps real
+# networks on the NumPy engine (recorded by an engine proxy), replayed on the CasADi primitives
+# ---------------------------------------------------------------------------------------
+def dm_of(x):
+    if isinstance(x, np.ndarray):
+        return cs.DM(np.asarray(x, dtype=float).reshape(-1).tolist()) if x.size else cs.DM(0, 1)
+    if isinstance(x, np.generic):
+        return float(x)
+    return x
+
+
+def show(x):
+    if isinstance(x, np.ndarray):
+        return f"array({x.tolist()}, {x.dtype})"
+    return repr(x)
+
+
+def harvest_spec(spec, label, st, problems, seen):
+    from ..harness import np_step
+    from ..netgen import MODEL_PARAMS
+    from ..spec import build
+    from ..spy import SpyEngine
+    from .. import valgen
+    runs = []
+    for pi in (0, 1):
+        P = MODEL_PARAMS[pi]
+        for vlabel, val in list(valgen.vectors(spec, 0)) + (list(valgen.extreme_vectors(spec)) if pi == 0 else []):
+            runs.append((f"conditions {vlabel}", P, val, None))
+        # variables created by the NumPy engine itself: float fill, INTEGER fill (np.full((n,), 60) is int64), 0-d fill
+        runs.append(("engine-created variables, var_type=30.0", P, None, np.float64(30.0)))
+        runs.append(("engine-created variables, var_type=60 (int)", P, None, 60))
+    for rlabel, P, val, fill in runs:
+        spy = SpyEngine(env.numpy_engine() if fill is None else env.numpy_engine(fill), "np", record=True)
+        try:
+            if val is not None:
+                np_step(spec, val, P, engine=spy)
+            else:
+                build(spec).net.step(engine=spy, **P)
+        except Exception as e:  # noqa: BLE001
+            problems.append((f"C15/harvest/numpy-exception/{exc_site(e)}/{type(e).__name__}",
+                             f"{spec.short()} ({rlabel}): {exc_text(e)}", {"spec": spec.describe(), "run": rlabel}))
+            continue
+        st.inc("executions")
+        ce = CE()
+        for prim, a, k, r in spy.log:
+            key = (prim, repr([show(x) for x in a]), repr(sorted((kk, show(v)) for kk, v in k.items())))
+            st.inc("harvested_calls")
+            if key in seen:
+                continue
+            seen.add(key)
+            st.inc("states")
+            st.inc("transitions")
+            st.add_to("harvested_primitives", prim)
+            grp, name = prim.split(".")
+            desc = f"{prim}({', '.join(show(x) for x in a)}{''.join(f', {kk}={show(v)}' for kk, v in k.items())})"
+            case = {"spec": spec.describe(), "run": rlabel, "call": desc}
+            try:
+                rc = flat(getattr(getattr(ce, grp), name)(*[dm_of(x) for x in a], **{kk: dm_of(v) for kk, v in k.items()}))
+            except Exception as e:  # noqa: BLE001
+                problems.append((f"C15/{prim}/harvested/casadi-exception/{type(e).__name__}",
+                                 f"{spec.short()} ({rlabel}): casadi {desc}: {exc_text(e)}", case))
+                continue
+            rn = flat(r)
+            st.inc("executions")
+            if len(rn) != len(rc):
+                problems.append((f"C15/{prim}/harvested/shape", f"{spec.short()} ({rlabel}): {desc}: numpy returns {len(rn)} values, "
+                                 f"casadi {len(rc)}", case))
+                continue
+            for x, y in zip(rn, rc):
+                st.inc("components_compared")
+                if close(x, y) or x == y:
+                    continue
+                if x != x or y != y or abs(x) == INF or abs(y) == INF:
+                    # the model's own 0/0 or inf-inf at extreme vectors: only agreement where both are finite is required
+                    st.inc("harvested_nonfinite_skipped")
+                    continue
+                problems.append((f"C15/{prim}/harvested/mismatch", f"{spec.short()} ({rlabel}): {desc}: numpy = {x!r}, casadi = {y!r}",
+                                 case))
+                break
+
+
 def worker(item):
     prim, chunk_i, chunks, extra = item
     st = Stats()
     problems = []
+    if prim == "harvest":
+        seen = set()
+        for label, spec in extra:
+            harvest_spec(spec, label, st, problems, seen)
+        for sig, msg, case in problems:
+            st.violation(sig, msg, dict(case, primitive="harvest"))
+        st.outcome(("harvest", len(problems) == 0))
+        return st
     if prim == "links.step_speed":
         dmax, N = extra
         gen = gen_step_speed(dmax, N)
@@ -384,21 +474,37 @@ def explore(tier, seed, nproc):
     for N in (1, 3):
         items += [("links.step_speed", i, 32, (dmax if (N == 3 or tier != "quick") else 1, N)) for i in range(32)]
     items.append(("engine.max/vcat", 0, 1, None))
+    from ..netgen import all_specs, harness_specs
+    pal = seed % 3
+    hs = ([(lab, sp) for _, lab, sp in (all_specs(3, 3, 0, pal) if tier == "quick" else all_specs(3, 4, 1, pal))]
+          + [(f"harness:{k}", sp) for k, sp in harness_specs(pal).items()])
+    items += [("harvest", 0, 1, sh) for sh in shards_of(hs, nproc * 4)]
     rot = seed % len(items)
     items = items[rot:] + items[:rot]
     st = run_shards(worker, items, nproc)
     cov = {"primitives": list(PRIMS) + ["links.step_speed", "engine.max", "engine.vcat"], "step_speed_deviation_bound": dmax,
+           "harvested": {"networks": len(hs), "bounds": ("(n,m)<=(3,3) base+uniform" if tier == "quick" else "(n,m)<=(3,4), c<=1")
+                         + " + harness list; 2 parameter sets; base and extreme vectors; engine-created float and integer variables",
+                         "primitives_reached": sorted(st.sets.get("harvested_primitives", set()))},
            "rule": "a state is one argument tuple of one primitive; full Cartesian products of the alphabets (step_speed: "
                    "deviation-bounded, 4 None patterns, 2 base tuples); NumPy (length-1 and 0-d scalars) vs casadi.DM"}
     assumptions = ["alphabets contain every branch boundary of every min/max/if of the primitives and zero/inf extremes",
                    "where the primitive itself divides 0 by 0 only agreement of NaN-ness is required",
-                   "tolerance 1e-9"]
+                   "tolerance 1e-9",
+                   "harvested family: the argument tuples are those the element layer passes while stepping the listed networks "
+                   "on the NumPy engine; non-finite results (the model's own 0/0 at extreme vectors) are not compared"]
     return st, cov, assumptions
 
 
 def replay(case):
     st = Stats()
     problems = []
+    if case.get("primitive") == "harvest":
+        from ..spec import NetSpec
+        spec = NetSpec.from_json(case["spec"])
+        harvest_spec(spec, "?", st, problems, set())
+        lines = [f"harvested calls of {spec.short()}"] + [f"  {s}: {m}" for s, m, a in problems[:10]]
+        return lines, bool(problems)
     args = tuple(float("inf") if a == "inf" else a for a in case["args"])
     compare_case(case["primitive"], args, True, st, problems)
     lines = [f"{case['primitive']}{args}"] + [f"  {s}: {m}" for s, m, a in problems]
